@@ -290,12 +290,52 @@ def _lemmas(ctx):
 LEMMAS = [_lemmas]
 
 
+_REPLAY = {}
+
+
 def native_replay(ctx, o):
     """Missing-data policy on the real provider with an empty repository and null rates requested."""
+    from replaylib.native import run_native
+    if 'OpenADAS.' in o.name and ('outside-subset' in o.name or 'frame.' in o.name):
+        # bounded stand-in for accessors that left the subset / touch unknown state: one provider asked for the element and then for its
+        # isotope (and the other way round) must answer each request like a fresh provider does (temporary repository with distinct
+        # hydrogen / deuterium wavelengths)
+        code = '''
+import tempfile, shutil, numpy as np
+from cherab.core.atomic import hydrogen, deuterium
+from cherab.openadas import OpenADAS, repository
+d = tempfile.mkdtemp(prefix="verif_c07_")
+bad = []
+try:
+    for sp, w in ((hydrogen, 656.279), (deuterium, 656.101)):
+        repository.add_wavelength(sp, 0, (3, 2), w, repository_path=d)
+    ne, te = [1e18, 1e19, 1e20, 1e21], [1., 10., 100.]
+    t1 = np.outer([1., 1.3, 1.7, 2.2], [2e-16, 5e-15, 9e-15]); t2 = np.outer([1., 1.1, 1.5, 2.9], [7e-19, 3e-19, 4e-20])
+    repository.add_pec_excitation_rate(hydrogen, 0, (3, 2), {"ne": ne, "te": te, "rate": t1}, repository_path=d)
+    repository.add_pec_recombination_rate(hydrogen, 0, (3, 2), {"ne": ne, "te": te, "rate": t2}, repository_path=d)
+    for acc in ("impact_excitation_pec", "recombination_pec"):
+        for order in ((hydrogen, deuterium), (deuterium, hydrogen)):
+            p = OpenADAS(data_path=d)
+            for sp in order:
+                got = getattr(p, acc)(sp, 0, (3, 2))
+                fresh = getattr(OpenADAS(data_path=d), acc)(sp, 0, (3, 2))
+                a, b = got(3e19, 20.0), fresh(3e19, 20.0)
+                if not abs(a - b) <= 1e-12 * abs(b):
+                    bad.append({"accessor": acc, "request_order": [s.name for s in order], "species": sp.name, "value": a, "fresh_provider": b})
+finally:
+    shutil.rmtree(d, ignore_errors=True)
+print(json.dumps({"bad": bad[:3], "nbad": len(bad)}))
+'''
+        if 'h' not in _REPLAY:
+            _REPLAY['h'] = run_native(ctx, code, timeout=300)
+        out = _REPLAY['h']
+        exp = 'the answer to a request does not depend on earlier requests to the same provider'
+        if out and out.get('nbad'):
+            return {'confirmed': True, 'input': out['bad'][0], 'observed': out, 'expected': exp}
+        return {'confirmed': False, 'input': None, 'observed': out, 'expected': exp}
     which = 'recombination_pec' if 'recombination_pec' in o.name else ('beam_cx_pec' if 'beam_cx_pec' in o.name else None)
     if which is None:
         return None
-    from replaylib.native import run_native
     call = {'recombination_pec': 'p.recombination_pec(deuterium, 0, (3, 2))', 'beam_cx_pec': 'p.beam_cx_pec(deuterium, carbon, 6, (8, 7))'}[which]
     code = '''
 import tempfile, shutil
